@@ -1,11 +1,14 @@
 package props
 
 import (
+	"bytes"
 	"fmt"
 	"math"
 
 	enc "github.com/DataDog/sketches-go/ddsketch/encoding"
+	"github.com/DataDog/sketches-go/ddsketch/pb/sketchpb"
 	"github.com/DataDog/sketches-go/ddsketch/store"
+	"google.golang.org/protobuf/proto"
 	"pgregory.net/rapid"
 	"verifharness/gen"
 	"verifharness/layout"
@@ -24,6 +27,7 @@ type sop struct {
 	Burst  []int
 	Other  *subHist
 	Factor gen.Factor
+	Stream bool // protomerge: through the streaming EncodeProto writer instead of ToProto
 }
 
 type subHist struct {
@@ -46,6 +50,10 @@ func (o sop) String() string {
 		return fmt.Sprintf("Burst(%v)", o.Burst)
 	case "merge":
 		return fmt.Sprintf("MergeWith(%s%v)", o.Other.Kind, o.Other.Ops)
+	case "decmerge":
+		return fmt.Sprintf("DecodeAndMergeWith(Encode(%s%v))", o.Other.Kind, o.Other.Ops)
+	case "protomerge":
+		return fmt.Sprintf("MergeWithProto(%s%v,stream=%v)", o.Other.Kind, o.Other.Ops, o.Stream)
 	case "reweight":
 		return fmt.Sprintf("Reweight(%v)", o.Factor.F)
 	}
@@ -66,12 +74,12 @@ func (o sop) scaled(f float64) []sop {
 			out[i] = sop{Kind: "addw", Index: x, W: f}
 		}
 		return out
-	case "merge":
+	case "merge", "decmerge", "protomerge":
 		sub := &subHist{Kind: o.Other.Kind}
 		for _, x := range o.Other.Ops {
 			sub.Ops = append(sub.Ops, x.scaled(f)...)
 		}
-		return []sop{{Kind: "merge", Other: sub}}
+		return []sop{{Kind: o.Kind, Other: sub, Stream: o.Stream}}
 	}
 	return []sop{o}
 }
@@ -344,6 +352,34 @@ func (u *storeUnderTest) apply(op sop) string {
 				}
 			}
 		}
+	case "decmerge", "protomerge":
+		arg, am := op.Other.build()
+		argExp := expected(op.Other.Kind, am)
+		if op.Kind == "decmerge" {
+			if err := decodeInto(u.s, encodeStore(arg)); err != nil {
+				return fmt.Sprintf("decoding the encoding of a %s store failed: %v", op.Other.Kind, err)
+			}
+		} else {
+			pb := arg.ToProto()
+			if op.Stream {
+				var buf bytes.Buffer
+				arg.EncodeProto(sketchpb.NewStoreBuilder(&buf))
+				var st sketchpb.Store
+				if err := proto.Unmarshal(buf.Bytes(), &st); err != nil {
+					return fmt.Sprintf("bytes of the streaming store writer do not unmarshal: %v", err)
+				}
+				if !proto.Equal(&st, pb) {
+					return fmt.Sprintf("streaming store writer produced %v, ToProto() is %v", &st, pb)
+				}
+				pb = &st
+			}
+			store.MergeWithProto(u.s, pb)
+		}
+		u.m.Merge(argExp)
+		for i := range argExp {
+			u.indexes[i] = true
+		}
+		u.cl.label(fmt.Sprintf("%s:%s<-%s", op.Kind, u.kind.Name, op.Other.Kind.Name))
 	case "copy":
 		old := u.s
 		u.s = old.Copy()
@@ -499,7 +535,7 @@ func (g *opGen) drawOp(t *rapid.T, u *storeUnderTest) sop {
 			return sop{Kind: "addw", Index: g.index(t), W: 0}
 		}
 		return sop{Kind: "burst", Burst: b}
-	case "merge":
+	case "merge", "decmerge", "protomerge":
 		ak := gen.AnyKind().Draw(t, "argkind")
 		if rapid.IntRange(0, 2).Draw(t, "samekind") == 0 {
 			ak = u.kind
@@ -507,7 +543,7 @@ func (g *opGen) drawOp(t *rapid.T, u *storeUnderTest) sop {
 				ak.N = gen.BinLimit().Draw(t, "argN")
 			}
 		}
-		return sop{Kind: "merge", Other: g.drawSub(t, ak, total)}
+		return sop{Kind: kind, Other: g.drawSub(t, ak, total), Stream: rapid.Bool().Draw(t, "viastream")}
 	case "reweight":
 		f := gen.ReweightFactor().Draw(t, "factor")
 		if f.F != 1 && !u.bud.FitsAfterFactor(total, f.F, f.Shift) {
